@@ -216,7 +216,9 @@ func (r *FeatureLocal) addPendingApproval(msg *api.Message) {
 
 func (r *FeatureLocal) ApproveOrDenyWrite(msg *api.Message, err model.ErrorType) {
 	if r.Role() != model.RoleTypeServer ||
-		msg.DeviceRemote == nil {
+		msg.DeviceRemote == nil ||
+		msg.RequestHeader == nil ||
+		msg.RequestHeader.MsgCounter == nil {
 		return
 	}
 
